@@ -472,3 +472,120 @@ Proof.
 Qed.
 
 End RemoveColTop.
+
+(** * the result as rows of cells, and conservation *)
+Section RemoveColGrid.
+Context {A : Type}.
+
+Lemma nth_error_remove_at : forall i (l : list A) c,
+  nth_error (remove_at i l) c = if c <? i then nth_error l c else nth_error l (c + 1).
+Proof.
+  induction i as [|i IH]; intros l c.
+  - destruct l as [|h t]; cbn [remove_at]; [destruct c; reflexivity|].
+    cbn [Nat.ltb Nat.leb]. replace (c + 1) with (S c) by lia. reflexivity.
+  - destruct l as [|h t]; cbn [remove_at]; [destruct c; [reflexivity|destruct (S c <? S i); reflexivity]|].
+    destruct c as [|c]; cbn [nth_error]; [reflexivity|]. rewrite IH.
+    change (S c <? S i) with (c <? i). destruct (c <? i); [reflexivity|]. replace (S c + 1) with (S (c + 1)) by lia. reflexivity.
+Qed.
+
+Lemma remove_at_length : forall i (l : list A), i < length l -> length (remove_at i l) = length l - 1.
+Proof.
+  induction i as [|i IH]; intros l Hi; destruct l as [|h t]; cbn [length remove_at] in *; try lia.
+  rewrite IH by lia. lia.
+Qed.
+
+(** the pointwise description determines the flat buffer: every row without its cell [idx] *)
+Theorem remove_col_rows (data d : list A) nc nr idx : idx < nc -> length data = nc * nr ->
+  length d = (nc - 1) * nr ->
+  (forall r c, r < nr -> c < nc - 1 -> nth_error d (r * (nc - 1) + c) = gv data nc idx r c) ->
+  d = concat (map (remove_at idx) (chunks nr nc data)).
+Proof.
+  intros Hidx Hd Hl Hn.
+  destruct (chunks_uniform nc nr data Hd) as [Hu Hcl].
+  set (rows' := map (remove_at idx) (chunks nr nc data)).
+  assert (Hu' : Forall (fun row => length row = nc - 1) rows').
+  { apply Forall_forall. intros row Hin. unfold rows' in Hin. apply in_map_iff in Hin.
+    destruct Hin as [row0 [<- Hin0]]. pose proof (proj1 (Forall_forall _ _) Hu row0 Hin0) as H0. cbn beta in H0.
+    rewrite remove_at_length by lia. lia. }
+  assert (Hl' : length rows' = nr) by (unfold rows'; rewrite map_length; exact Hcl).
+  apply list_ext. intros p.
+  destruct (Nat.lt_ge_cases p ((nc - 1) * nr)) as [Hp|Hp].
+  - assert (Hw : 0 < nc - 1) by nia.
+    set (r := p / (nc - 1)). set (c := p mod (nc - 1)).
+    assert (Hpc : p = r * (nc - 1) + c) by (subst r c; pose proof (Nat.div_mod p (nc - 1) ltac:(lia)); lia).
+    assert (Hc : c < nc - 1) by (subst c; apply Nat.mod_upper_bound; lia).
+    assert (Hr : r < nr) by (subst r; apply Nat.div_lt_upper_bound; lia).
+    rewrite Hpc. rewrite Hn by assumption.
+    rewrite (concat_uniform_nth (nc - 1) rows' r c Hu') by lia.
+    unfold rows'. rewrite nth_error_map, (chunks_nth_local nc data nr r Hr). cbn [option_map].
+    rewrite nth_error_remove_at. unfold gv. rewrite !nth_error_firstn, !nth_error_skipn.
+    destruct (Nat.ltb_spec c idx).
+    + destruct (Nat.ltb_spec c nc); [reflexivity|lia].
+    + destruct (Nat.ltb_spec (c + 1) nc); [f_equal; lia|lia].
+  - rewrite !nth_error_ge_None; [reflexivity| |lia].
+    rewrite (concat_uniform_length (nc - 1) rows' Hu'), Hl'. lia.
+Qed.
+
+(** the column's values, top to bottom, are the [idx]-th cells of the rows *)
+Lemma vals_col_cells (data : list A) nc nr idx : idx < nc -> length data = nc * nr ->
+  vals data (col_cells nc nr idx)
+  = flat_map (fun row => match nth_error row idx with Some x => [x] | None => [] end) (chunks nr nc data).
+Proof.
+  intros Hidx Hd. unfold vals, col_cells. rewrite flat_map_concat_map, map_map.
+  rewrite flat_map_concat_map. f_equal.
+  apply list_ext. intros r. rewrite !nth_error_map.
+  destruct (Nat.lt_ge_cases r nr) as [Hr|Hr].
+  - rewrite nth_error_seq. destruct (Nat.ltb_spec r nr); [|lia]. cbn [option_map].
+    rewrite (chunks_nth_local nc data nr r Hr). cbn [option_map]. f_equal.
+    rewrite nth_error_firstn, nth_error_skipn. destruct (Nat.ltb_spec idx nc); [|lia].
+    replace (idx + (0 + r) * nc) with (r * nc + idx) by lia. reflexivity.
+  - rewrite nth_error_seq. destruct (Nat.ltb_spec r nr); [lia|]. cbn [option_map].
+    destruct (chunks_uniform nc nr data Hd) as [_ Hcl].
+    rewrite (nth_error_ge_None (chunks nr nc data)) by lia. reflexivity.
+Qed.
+
+Lemma remove_cols_perm idx : forall (rows : list (list A)),
+  Forall (fun row => idx < length row) rows ->
+  Permutation (concat (map (remove_at idx) rows)
+               ++ flat_map (fun row => match nth_error row idx with Some x => [x] | None => [] end) rows)
+              (concat rows).
+Proof.
+  assert (Hrem : forall i (l : list A) x, nth_error l i = Some x -> Permutation (x :: remove_at i l) l).
+  { induction i as [|i IH]; intros l x Hx; destruct l as [|h t]; cbn in Hx; try discriminate.
+    - inversion Hx; subst. apply Permutation_refl.
+    - cbn [remove_at]. eapply Permutation_trans; [apply perm_swap|]. apply perm_skip. apply IH. exact Hx. }
+  induction rows as [|row rows IH]; intros Hall; [apply Permutation_refl|].
+  inversion Hall as [|? ? Hrow Hall']; subst. cbn [map concat flat_map].
+  destruct (nth_error row idx) as [x|] eqn:Ex; [|apply nth_error_None in Ex; lia].
+  specialize (IH Hall'). specialize (Hrem idx row x Ex).
+  rewrite <- app_assoc. cbn [app].
+  eapply Permutation_trans; [apply Permutation_app_head; apply Permutation_sym; apply Permutation_middle|].
+  eapply Permutation_trans; [apply Permutation_sym; apply Permutation_middle|].
+  cbn [app]. rewrite app_assoc.
+  eapply Permutation_trans; [apply perm_skip; rewrite <- app_assoc; apply Permutation_refl|].
+  change (x :: remove_at idx row ++ concat (map (remove_at idx) rows) ++ flat_map (fun row0 => match nth_error row0 idx with Some x0 => [x0] | None => [] end) rows)
+    with ((x :: remove_at idx row) ++ (concat (map (remove_at idx) rows) ++ flat_map (fun row0 => match nth_error row0 idx with Some x0 => [x0] | None => [] end) rows)).
+  apply Permutation_app; assumption.
+Qed.
+
+Lemma concat_chunks nc : forall n (d : list A), length d = nc * n -> concat (chunks n nc d) = d.
+Proof.
+  induction n as [|n IH]; intros d Hd; cbn [chunks concat].
+  - symmetry. apply length_zero_iff_nil. lia.
+  - rewrite IH by (rewrite skipn_length; lia). apply firstn_skipn.
+Qed.
+
+(** what is left of the array plus the removed column is a permutation of the array *)
+Theorem remove_col_conserves (data d : list A) nc nr idx : idx < nc -> length data = nc * nr ->
+  length d = (nc - 1) * nr ->
+  (forall r c, r < nr -> c < nc - 1 -> nth_error d (r * (nc - 1) + c) = gv data nc idx r c) ->
+  Permutation (d ++ vals data (col_cells nc nr idx)) data.
+Proof.
+  intros Hidx Hd Hl Hn.
+  rewrite (remove_col_rows data d nc nr idx Hidx Hd Hl Hn), (vals_col_cells data nc nr idx Hidx Hd).
+  destruct (chunks_uniform nc nr data Hd) as [Hu _].
+  eapply Permutation_trans; [apply remove_cols_perm|rewrite (concat_chunks nc nr data Hd); apply Permutation_refl].
+  eapply Forall_impl; [|exact Hu]. intros row Hrow. cbn beta in Hrow. lia.
+Qed.
+
+End RemoveColGrid.
